@@ -77,14 +77,36 @@ func c03SplitAlphabet() []Op {
 	return append(ops, Op{K: "clean"}, Op{K: "pclean", P: "/p/{x}/b"}, Op{K: "pclean", P: "/p/{x}/"}, Op{K: "pclean", P: "/p/{x}/bc"}, Op{K: "remove", P: "/p/{x}/bc", Ms: []string{"GET"}})
 }
 
+// c03OrderPool (family 2): parameter siblings of equal rank whose matches overlap (/p/zz/bcd is {t}=zz/bc + d as
+// well as {x}=zz + /bcd), with chains of literal text below one of them, so that a removal restructures one sibling
+// while the other is a live candidate for the same paths: which of the two answers must not depend on the removal.
+var c03OrderPool = []string{"/p/{t}d", "/p/{x}/b", "/p/{x}/bc", "/p/{x}/bcd", "/p/{t}d/e", "/p/{u}+", "/p/{u}+-"}
+
+func c03OrderAlphabet() []Op {
+	var ops []Op
+	for _, p := range c03OrderPool {
+		ops = append(ops, Op{K: "handle", P: p, Ms: []string{"GET"}})
+	}
+	for _, p := range c03OrderPool {
+		ops = append(ops, Op{K: "remove", P: p})
+	}
+	return append(ops, Op{K: "pclean", P: "/p/{x}/"}, Op{K: "pclean", P: "/p/{t}d"})
+}
+
 func c03AlphabetOf(family int) []Op {
-	if family == 1 {
+	switch family {
+	case 1:
 		return c03SplitAlphabet()
+	case 2:
+		return c03OrderAlphabet()
 	}
 	return c03Alphabet()
 }
 
 func c03PathsOf(family int, ic ref.Interceptors) []string {
+	if family == 2 {
+		return []string{"/p/zz/bcd", "/p/zz/bc", "/p/zz/b", "/p/zzd", "/p/zz/bd", "/p/zzd/e", "/p/zz/bcd/e", "/p/zz+", "/p/zz+-", "/p/zz+-d", "/p/zz/b+", "/p/zz/bcd+-", "/p/zz"}
+	}
 	if family != 1 {
 		return c03Paths(ic)
 	}
@@ -264,6 +286,11 @@ func c03Expand(raw json.RawMessage) (any, error) {
 			if before.exp[i].String() != after.exp[i].String() {
 				continue
 			}
+			// between equally ranked live candidates the property leaves the winner open and states the frame for
+			// removals only: a registration may re-order them (the tree sorts siblings when a child is added)
+			if op.K == "handle" && len(after.exp[i].Outcomes) > 1 {
+				continue
+			}
 			// the handler-level expectation may also have changed (method added/removed)
 			pi, mi := i/len(c03Methods), i%len(c03Methods)
 			q := hv.Req{Method: c03Methods[mi], Path: paths[pi]}
@@ -401,6 +428,8 @@ func init() {
 		}
 		// family 1: literal text after a parameter split between two routes, then one of them removed again
 		explore.BFS(rc, "c03/expand", c03Cfg{Router: RouterCfg{}, Family: 1}, depth+1, true, "C03 split literal suffix")
+		// family 2: equally ranked parameter siblings that match the same paths, one of them restructured by removals
+		explore.BFS(rc, "c03/expand", c03Cfg{Router: RouterCfg{}, Family: 2}, depth+2, true, "C03 overlapping parameter siblings")
 		// frame law over unusual pattern spellings (the reference tokenizer has no opinion on them, the law needs none):
 		// an accepted second registration takes no path away from the first route and gives it no new one
 		var xitems []exoticItem
